@@ -60,14 +60,19 @@ class ScheduledFile(object):
 
 
 def eval_digest(size, algo, k, short):
-    """compute_checksum on a file of `size` bytes whose k-th read is short (k None: the real file, full reads)."""
+    """compute_checksum on a file of `size` bytes whose k-th read is short (k None: the real file, full reads), AFTER an
+    unrelated file was hashed with the same algorithm (state must not carry over between calls).  Verdict only."""
     import productmd.treeinfo as pt
     data = content(size)
+    ref = reference_digest(size, algo)
     tmp = tempfile.mkdtemp(prefix="c16-")
     try:
         path = os.path.join(tmp, "f")
         with open(path, "wb") as f:
             f.write(data)
+        with open(os.path.join(tmp, "warmup"), "wb") as f:
+            f.write(b"some other file")
+        call(pt.compute_checksum, os.path.join(tmp, "warmup"), algo)
         ScheduledFile.opened = 0
         if k is not None:
             def fake_open(p, mode="r", *a, **kw):
@@ -79,7 +84,8 @@ def eval_digest(size, algo, k, short):
         finally:
             if k is not None:
                 del pt.open
-        return {"result": r, "seam_used": ScheduledFile.opened if k is not None else None}
+        return {"returned_digest": r[0] == "ok", "equals_hashlib_one_shot": r == ref, "error": None if r[0] == "ok" else r[1],
+                "seam_used": (ScheduledFile.opened > 0) if k is not None else None}
     finally:
         shutil.rmtree(tmp, ignore_errors=True)
 
@@ -105,21 +111,28 @@ def norm(path):
     return "/".join(parts) or "."
 
 
+REL_PATHS_LINK = ["d/link/../f", "./d/link/../f"]
+
+
 def eval_add(rel, absolute):
-    """Checksums.add with the value computed from the file below root_dir."""
+    """Checksums.add with the value computed from the file below root_dir.  Layout: f, d/f, e/f all differ; d/x is a directory,
+    d/link is a symlink to ../e/sub - the checksum belongs to the file the NORMALISED relative path names."""
     ti = TI.build(TI.seed_src())
     tmp = tempfile.mkdtemp(prefix="c16-")
     try:
         os.makedirs(os.path.join(tmp, "d", "x"))
+        os.makedirs(os.path.join(tmp, "e", "sub"))
+        os.symlink(os.path.join("..", "e", "sub"), os.path.join(tmp, "d", "link"))
         data = content(MIB + 3)
-        for p in ("f", "d/f"):
+        files = {"f": data, "d/f": data[:-1], "e/f": data[:-2]}
+        for p, blob in files.items():
             with open(os.path.join(tmp, p), "wb") as f:
-                f.write(data if p == "f" else data[:-1])
+                f.write(blob)
         arg = os.path.join(tmp, rel) if absolute else rel
         r = call(ti.checksums.add, arg, "sha256", None, tmp)
-        table = {k: list(v) for k, v in ti.checksums.checksums.items()}
-        return {"result": "ok" if r[0] == "ok" else r[1],
-                "table": {k.replace(tmp, "<root>"): v for k, v in table.items()}}
+        table = {k.replace(tmp, "<root>"): list(v) for k, v in ti.checksums.checksums.items()}
+        want = {} if absolute else {norm(rel): ["sha256", hashlib.sha256(files[norm(rel)]).hexdigest()]}
+        return {"result": "ok" if r[0] == "ok" else r[1], "keys": sorted(table), "table_is_expected": table == want}
     finally:
         shutil.rmtree(tmp, ignore_errors=True)
 
@@ -226,15 +239,15 @@ def run_unit(unit, acc):
                 acc.ev()
                 case = {"kind": "digest", "size": size, "algo": algo, "k": j, "short": s}
                 if ref[0] == "variable-length":
-                    if o["result"][0] == "ok":
+                    if o["returned_digest"]:
                         acc.violation("digest-variable", case, o, "%s has no fixed digest length but a digest was recorded" % algo)
                     else:
                         acc.outcome("digest:variable-length-refused-or-standard")
                     continue
-                if o["result"] != ref:
+                if not o["equals_hashlib_one_shot"]:
                     acc.violation("digest" + ("-short-read" if j is not None else ""), case, o,
-                                  "compute_checksum(%d bytes, %s, read #%s short=%s) = %s, hashlib one-shot %s"
-                                  % (size, algo, j, s, o["result"], ref))
+                                  "compute_checksum(%d bytes, %s, read #%s short=%s) after hashing another file: %s, not the hashlib one-shot digest"
+                                  % (size, algo, j, s, o["error"] or "a different digest"))
                 else:
                     acc.outcome("digest:ok" if j is None else "digest:short-read:ok")
                     if j is not None and not o["seam_used"]:
@@ -243,22 +256,19 @@ def run_unit(unit, acc):
                     acc.nontriv((size, algo, j, s))
         acc.sample({"size": sizes[-1], "algorithm": algo, "read_schedule": "read #1 returns 1 byte"}, limit=2)
     elif k == "paths":
-        for rel in REL_PATHS:
+        for rel in REL_PATHS + REL_PATHS_LINK:
             o = eval_add(rel, False)
             acc.ev()
-            which = "d/f" if norm(rel) == "d/f" else "f"
-            data = content(MIB + 3)
-            want = {"result": "ok", "table": {norm(rel): ["sha256", hashlib.sha256(data if which == "f" else data[:-1]).hexdigest()]}}
-            if o != want:
+            if o != {"result": "ok", "keys": [norm(rel)], "table_is_expected": True}:
                 acc.violation("path", {"kind": "add", "rel": rel, "absolute": False}, o,
-                              "Checksums.add(%r) recorded %s, expected %s" % (rel, o, want))
+                              "Checksums.add(%r): %s (expected the digest of the file %r recorded under that key)" % (rel, o, norm(rel)))
             else:
                 acc.outcome("path:normalised")
             acc.nontriv(("path", rel))
         for rel in ("f", "d/f"):
             o = eval_add(rel, True)
             acc.ev()
-            if o != {"result": "ValueError", "table": {}}:
+            if o != {"result": "ValueError", "keys": [], "table_is_expected": True}:
                 acc.violation("path-absolute", {"kind": "add", "rel": rel, "absolute": True}, o,
                               "Checksums.add(absolute path) -> %s, expected ValueError and nothing recorded" % (o,))
             else:
@@ -326,7 +336,7 @@ def describe(tier):
         "rule": "(i) compute_checksum on files of sizes %s x every name in hashlib.algorithms_available, real file with full reads and, "
                 "through a shadowed open(), one short read (1, 2^19 or 2^20-1 bytes) at every read index (all indexes for "
                 "md5/sha1/sha256/sha512/blake2b, two for the others), oracle = hashlib one-shot digest (variable-length algorithms: "
-                "refusal or nothing recorded); Checksums.add over 6 relative path spellings and absolute paths; (ii) every ordered "
+                "refusal or nothing recorded); Checksums.add over 8 relative path spellings (incl. 'x/../' through a symlinked directory) and absolute paths; every digest call is preceded by hashing another file with the same algorithm; (ii) every ordered "
                 "[checksums] section of <= %d entries over 9 value shapes (typed sha256/md5, bare 32/40/64, bare 8, bare 65, a:b:c, "
                 "empty): each path maps to the type/value on its own line or the load raises; (iii) all 8^1..8^4 add_checksum histories "
                 "over 2 types x {x, y, '', None}.  Non-trivial: size >= 2^20-1, a path spelling, a multi-entry section, a history of >= 2 calls."
